@@ -24,7 +24,7 @@ import copy
 import os
 import re
 from . import ir
-from .ir import Fn, walk
+from .ir import Fn, walk, fmt
 
 MAX_BLOCKS = 60
 MAX_DEPTH = 3
@@ -135,6 +135,8 @@ class Inliner:
             return None
         if callee.flags.get("virtual"):
             return None
+        if any((p0.get("type") or "").rstrip().endswith("...") for p0 in callee.params) or any(isinstance(a, dict) and (a.get("k") == "pack" or fmt(a).endswith("...")) for a in n.get("args", [])):
+            return None  # a pack expansion is not one argument: the uninstantiated pattern cannot be spliced
         return callee
 
     # ------------------------------------------------------------------ rewriting of the callee's trees
@@ -269,15 +271,21 @@ class Inliner:
         live = [b for b in callee.reachable_blocks() if b != callee.exit]
         elems = []
         for b in live:
-            if len(callee.succs(b)) > 1:
-                return None
+            if len(callee.succs(b)) > 1 and callee.term(b).get("kind") not in ("and", "or", "cond"):
+                return None  # a statement-level branch; the blocks of && / || / ?: belong to one expression
             elems += [e for e in callee.elems(b) if e.get("expr") is not None]
-        if len(elems) != 1:
+        rets = [e for e in elems if e["expr"].get("k") == "return"]
+        if len(rets) != 1 or rets[0]["expr"].get("e") is None:
             return None
-        x = elems[0]["expr"]
-        if x.get("k") == "return" and x.get("e") is not None:
-            return x["e"]
-        return None
+        if len(elems) > 1:
+            # everything else must be an operand of the returned expression, evaluated ahead of it by the short-circuit CFG
+            whole = fmt(rets[0]["expr"]["e"])
+            for e in elems:
+                if e is rets[0]:
+                    continue
+                if e["expr"].get("k") in ("decl", "return") or fmt(e["expr"]) not in whole:
+                    return None
+        return rets[0]["expr"]["e"]
 
     # ------------------------------------------------------------------ main
     def expand(self, fn, depth=0):
@@ -659,7 +667,10 @@ def copyprop(fn, known_locals, log):
         return fn
     written_l, written_p, written_f = set(), set(), set()
     all_fields_unstable = False
+    events = []  # (bid, idx, written_l, written_p, written_f, all_fields_unstable) per root, for the flow-sensitive refinement
     for bid, i, e in fn.roots():
+        _snap = (set(written_l), set(written_p), set(written_f), all_fields_unstable)
+        written_l, written_p, written_f, all_fields_unstable = set(), set(), set(), False
         for eff, lv, n in tree_effects(e["expr"], into_sc=True):
             if eff in ("write", "maybe_write", "move") and lv is not None:
                 kind, key, _ = lvalue_root(lv)
@@ -703,6 +714,81 @@ def copyprop(fn, known_locals, log):
                     if (decls.get(t["decl"][6:], {}).get("type") or "").rstrip().endswith("&"):
                         continue  # the address of a reference is the address of what it names
                     written_l.add(t["decl"][6:])
+        events.append((bid, i, written_l, written_p, written_f, all_fields_unstable))
+        written_l, written_p, written_f, all_fields_unstable = written_l | _snap[0], written_p | _snap[1], written_f | _snap[2], all_fields_unstable or _snap[3]
+
+    def after_def(nm):
+        """write sets restricted to the program points reachable from the declaration of nm without passing it again"""
+        pos = None
+        for bid, i, e in fn.roots():
+            x = e["expr"]
+            if x.get("k") == "decl" and any(v["name"] == nm for v in x.get("vars", [])):
+                pos = (bid, i)
+        if pos is None:
+            return None
+        order = {}
+        for bid, i, e in fn.roots():
+            order.setdefault(bid, []).append(i)
+        reach = set()  # (bid, idx)
+        for i in order.get(pos[0], []):
+            if i > pos[1]:
+                reach.add((pos[0], i))
+        seen_b = set()
+        st = [to for to, _ in fn.succs(pos[0])]
+        while st:
+            b = st.pop()
+            if b in seen_b:
+                continue
+            seen_b.add(b)
+            if b == pos[0]:
+                for i in order.get(b, []):
+                    if i < pos[1]:
+                        reach.add((b, i))
+                continue  # the declaration is executed again: a fresh value
+            for i in order.get(b, []):
+                reach.add((b, i))
+            st.extend(to for to, _ in fn.succs(b))
+        # ... and from which a use of nm is still ahead (a write behind the last use cannot change what a use sees)
+        uses = [(bid, i) for bid, i, e in fn.roots() if (bid, i) != pos and any(y.get("k") == "ref" and y.get("decl") == "local:" + nm for y in walk(e["expr"]))]
+        for b2 in fn.blocks:
+            c2 = fn.term(b2).get("cond")
+            if isinstance(c2, dict) and any(y.get("k") == "ref" and y.get("decl") == "local:" + nm for y in walk(c2)):
+                uses.append((b2, 10 ** 6))
+        preds = {}
+        for b2 in fn.blocks:
+            for to, _ in fn.succs(b2):
+                preds.setdefault(to, []).append(b2)
+        ahead = set()
+        seen_b = set()
+        st = []
+        for (ub, ui) in uses:
+            for i in order.get(ub, []):
+                if i <= ui and not (ub == pos[0] and i <= pos[1] and ui > pos[1]):
+                    ahead.add((ub, i))
+            if not (ub == pos[0] and ui > pos[1]):
+                st.extend(preds.get(ub, []))
+        while st:
+            b = st.pop()
+            if b in seen_b:
+                continue
+            seen_b.add(b)
+            if b == pos[0]:
+                for i in order.get(b, []):
+                    if i > pos[1]:
+                        ahead.add((b, i))
+                continue
+            for i in order.get(b, []):
+                ahead.add((b, i))
+            st.extend(preds.get(b, []))
+        reach &= ahead
+        wl, wp, wf, allf = set(), set(), set(), False
+        for bid, i, l0, p0, f0, a0 in events:
+            if (bid, i) in reach:
+                wl |= l0
+                wp |= p0
+                wf |= f0
+                allf = allf or a0
+        return wl, wp, wf, allf
 
     def stable(n, seen):
         n = ir.unwrap(n)
@@ -764,11 +850,23 @@ def copyprop(fn, known_locals, log):
         return False
 
     subst = {}
+    glob = (written_l, written_p, written_f, all_fields_unstable)
     for nm in cand:
         if nm in written_l:
             continue
         if stable(decls[nm]["init"], set()):
             subst[nm] = decls[nm]["init"]
+            continue
+        # flow-sensitive retry: only what can happen between this declaration and its uses matters (a local that is
+        # prepared first and then measured: `replace_all(word, ..); const auto needed = word.size() + 1;`)
+        ad = after_def(nm)
+        if ad is not None:
+            written_l, written_p, written_f, all_fields_unstable = ad
+            try:
+                if nm not in written_l and stable(decls[nm]["init"], set()):
+                    subst[nm] = decls[nm]["init"]
+            finally:
+                written_l, written_p, written_f, all_fields_unstable = glob
     if not subst:
         return fn
 
@@ -922,6 +1020,143 @@ def canon_fields(prog, known_fields, log):
         log.append((k, "member:" + n, "renamed back to " + o))
 
 
+# ------------------------------------------------------------------------------------------- helper objects
+def sroa(prog, inl, fn, known_fields, log):
+    """scalar replacement of a local helper object ("extract class"): a local of a /repo class the rule tables do not know,
+    built by a constructor that only initialises members, and used - after its member functions were inlined - through its data
+    members only, is replaced by one local per member (`obj__member`), initialised as the constructor does."""
+    if not fn.has_cfg or fn.file.startswith("/verif/"):
+        return fn
+    cands = {}
+    count = {}
+    for bid, i, e in fn.roots():
+        x = e["expr"]
+        if x.get("k") == "decl":
+            for v in x.get("vars", []):
+                count[v["name"]] = count.get(v["name"], 0) + 1
+                init = ir.unwrap(v.get("init")) if v.get("init") is not None else None
+                if isinstance(init, dict) and init.get("k") == "construct" and init.get("ctor") and not (init.get("copy") or init.get("move")):
+                    cands[v["name"]] = (bid, i, v, init)
+    if not cands:
+        return fn
+    plans = {}
+    for nm, (bid, i, v, init) in cands.items():
+        if count.get(nm) != 1:
+            continue
+        ctor = prog.fn(init["ctor"])
+        if ctor is None or not ctor.has_cfg or not ctor.file.startswith("/repo/") or not ctor.cls:
+            continue
+        cls = prog.cls(ctor.cls)
+        if cls is None or cls.get("bases") or strip_targs(ctor.cls) in (known_fields or {}):
+            continue
+        fields = [f0 for f0 in cls.get("fields", []) if not f0.get("static")]
+        inits = {}
+        ok = True
+        texts = []
+        for _, _, ce in ctor.all_elems():
+            if ce.get("expr") is None:
+                continue
+            if ce.get("kind") == "init" and ce.get("field"):
+                inits[ce["field"]] = ce["expr"]
+                texts.append(fmt(ce["expr"]))
+        for _, _, ce in ctor.all_elems():
+            if ce.get("expr") is None or ce.get("kind") == "init":
+                continue
+            if fmt(ce["expr"]) not in " ".join(texts):
+                ok = False  # the constructor body does something besides initialising members
+        if not ok or not fields or any(f0["qual"] not in inits for f0 in fields):
+            continue
+        if any(y.get("k") == "this" or (y.get("k") == "member" and not y.get("method") and y.get("base") is None) for t0 in inits.values() for y in walk(t0)):
+            continue
+        # uses: only obj.member
+        bad = [False]
+
+        def scan(n):
+            if isinstance(n, list):
+                for y in n:
+                    scan(y)
+                return
+            if not isinstance(n, dict):
+                return
+            if n.get("k") == "member" and not n.get("method") and not n.get("arrow"):
+                b0 = ir.unwrap(n.get("base"))
+                if isinstance(b0, dict) and b0.get("k") == "ref" and b0.get("decl") == "local:" + nm:
+                    return
+            if n.get("k") == "ref" and n.get("decl") == "local:" + nm:
+                bad[0] = True
+                return
+            if n.get("k") == "lambda":
+                if any(c0.get("name") == nm for c0 in n.get("captures", []) if isinstance(c0, dict)):
+                    bad[0] = True
+            for kk, vv in n.items():
+                if isinstance(vv, (dict, list)):
+                    scan(vv)
+        for b2, i2, e2 in fn.roots():
+            x2 = e2["expr"]
+            if (b2, i2) == (bid, i):
+                for v2 in x2.get("vars", []):
+                    if v2["name"] != nm and v2.get("init") is not None:
+                        scan(v2["init"])
+                continue
+            scan(x2)
+        for b2 in fn.blocks:
+            t2 = fn.term(b2)
+            for key in ("cond", "full"):
+                if isinstance(t2.get(key), dict):
+                    scan(t2[key])
+        if bad[0]:
+            continue
+        pre = []
+        rw = inl._rewriter({p0.get("name") for p0 in fn.params} | set(count), ctor, init, pre)
+        if pre:
+            continue
+        plans[nm] = (bid, i, fields, {q: rw(t0) for q, t0 in inits.items()})
+    if not plans:
+        return fn
+
+    def rwm(n):
+        if isinstance(n, list):
+            return [rwm(y) for y in n]
+        if not isinstance(n, dict):
+            return n
+        if n.get("k") == "member" and not n.get("method") and not n.get("arrow"):
+            b0 = ir.unwrap(n.get("base"))
+            if isinstance(b0, dict) and b0.get("k") == "ref" and b0.get("decl", "")[6:] in plans and b0.get("decl", "").startswith("local:"):
+                return {"k": "ref", "decl": "local:%s__%s" % (b0["decl"][6:], (n.get("field") or "").split("::")[-1]), "type": n.get("type", "")}
+        return {kk: (rwm(vv) if isinstance(vv, (dict, list)) else vv) for kk, vv in n.items()}
+
+    d = copy.deepcopy(fn.d)
+    for b in d["cfg"]["blocks"]:
+        for e in b.get("elems", []):
+            x = e.get("expr")
+            if x is None:
+                continue
+            if x.get("k") == "decl":
+                nv = []
+                for v in x.get("vars", []):
+                    if v["name"] in plans:
+                        _, _, fields, inits = plans[v["name"]]
+                        for f0 in fields:
+                            nv.append({"name": "%s__%s" % (v["name"], f0["name"]), "type": f0.get("type", ""), "init": inits[f0["qual"]]})
+                    else:
+                        v2 = dict(v)
+                        if v2.get("init") is not None:
+                            v2["init"] = rwm(v2["init"])
+                        nv.append(v2)
+                x["vars"] = nv
+            else:
+                e["expr"] = rwm(x)
+        t = b.get("term", {})
+        for key in ("cond", "full"):
+            if isinstance(t.get(key), dict):
+                t[key] = rwm(t[key])
+    for nm in plans:
+        log.append((fn.id, "local:" + nm, "helper object split into its members"))
+    new = Fn(d, fn.unit)
+    new.inlined = getattr(fn, "inlined", False)
+    return new
+
+
 def normalise(prog, known=None):
     """replace every function that calls an unknown /repo helper by its expanded form; returns the inlining log"""
     known = load_known() if known is None else known
@@ -938,6 +1173,8 @@ def normalise(prog, known=None):
         if not f.has_cfg:
             continue
         g = inl.expand(f)
+        if g is not f and kf is not None:
+            g = sroa(prog, inl, g, kf, inl.log)
         if known_locals is not None:
             g = copyprop(g, known_locals, inl.log)
         if g is not f:
